@@ -128,8 +128,25 @@ impl Gen<'_> {
         let ws = *self.rng.pick(&WS);
         let kind = *self.rng.pick(&[
             "include", "include", "run", "run", "write", "write", "empty", "temp", "tag", "incdep", "afterdep", "catplain",
-            "incsrc", "tagchain",
+            "incsrc", "tagchain", "inctemp",
         ]);
+        if kind == "inctemp" {
+            // include of a temp file this source wrote further up (whatever it holds by now)
+            let t = match &f.last_temp {
+                Some(t) => t.clone(),
+                None => return,
+            };
+            if f.listening.is_some() {
+                return;
+            }
+            let spelled = if self.rng.chance(1, 4) {
+                format!("./{}", rel_path(&f.dir, &t))
+            } else {
+                rel_path(&f.dir, &t)
+            };
+            f.b.push(format!("{ws}TXTPP#include {spelled}"));
+            return;
+        }
         if kind == "tagchain" {
             // two tags alive at once, the text stored under one mentions the other, both used on
             // one line: substituted text is never scanned again, the leftmost occurrence wins
@@ -168,7 +185,12 @@ impl Gen<'_> {
             f.b.group(vec![format!("-TXTPP#write {in_a}")]);
             f.b.push(format!("TXTPP#tag {b}"));
             f.b.group(vec![format!("-TXTPP#write {in_b}")]);
-            let line = match self.rng.below(4) {
+            // a suffix of one name may be a prefix of the other (AB, BA): the two uses overlap
+            let overlap = (1..a.len().min(b.len()))
+                .rev()
+                .find(|k| a.is_char_boundary(a.len() - k) && b.is_char_boundary(*k) && a[a.len() - k..] == b[..*k]);
+            let line = match self.rng.below(if overlap.is_some() { 6 } else { 4 }) {
+                4 | 5 => format!("x{}{}y", a, &b[overlap.unwrap_or(0)..]),
                 0 => format!("{a} {b}"),
                 1 => format!("{b} {a}"),
                 2 => format!("<{a}>({b})"),
@@ -317,7 +339,13 @@ impl Gen<'_> {
                     }
                 };
                 f.last_temp = Some(tpath.clone());
-                let mut ls = vec![format!("{ws}{prefix}TXTPP#temp{sp}{}", rel_path(&f.dir, &tpath))];
+                // the same file may be spelled with a leading ./
+                let spelled = if self.rng.chance(1, 4) {
+                    format!("./{}", rel_path(&f.dir, &tpath))
+                } else {
+                    rel_path(&f.dir, &tpath)
+                };
+                let mut ls = vec![format!("{ws}{prefix}TXTPP#temp{sp}{spelled}")];
                 for _ in 0..self.rng.below(4) {
                     let a = *self.rng.pick(&["body", "", "  x", "TXTPP#run no", "ü", "T1"]);
                     let l = self.cont(ws, &prefix, a);
